@@ -58,16 +58,16 @@ def _lockref(expr):
 def rewrite_source(src, virtual_time=True, gates=False, fname=""):
     """Line-preserving rewrite of a Go source file: time.Now -> verifNow, and optionally
     `verifLock(site, &x, kind); x.Lock()` in front of every `x.Lock()` / `x.RLock()` statement (a scheduling gate that also
-    tells which lock is about to be taken), `verifUnlock(&x, kind)` in front of every (deferred) `x.Unlock()` / `x.RUnlock()`
-    and `verifYield(site)` in front of every `x.Wait()`."""
+    tells which lock is about to be taken), `x.Unlock(); verifUnlock(site, &x, kind)` for every (deferred) `x.Unlock()` /
+    `x.RUnlock()` (a second kind of gate: right after a critical section) and `verifYield(site)` in front of every `x.Wait()`."""
     out = []
     func = "?"
-    n = 0
+    n = nu = 0
     for line in src.split("\n"):
         m = re.match(r"^func\s+(?:\([^)]*\)\s*)?(\w+)", line)
         if m:
             func = m.group(1)
-            n = 0
+            n = nu = 0
         if virtual_time:
             line = TIME_RE.sub(lambda mm: "verif" + mm.group(1), line)
         if gates:
@@ -80,10 +80,12 @@ def rewrite_source(src, virtual_time=True, gates=False, fname=""):
                 line = '%sverifLock("%s#%d", %s, "%s"); %s.%s()' % (mm.group(1), func, n, _lockref(mm.group(2)), kind, mm.group(2), mm.group(3))
             elif mu:
                 kind = "W" if mu.group(4) == "Unlock" else "R"
+                nu += 1
+                site = "%s#u%d" % (func, nu)
                 if mu.group(2):
-                    line = '%sdefer func() { verifUnlock(%s, "%s"); %s.%s() }()' % (mu.group(1), _lockref(mu.group(3)), kind, mu.group(3), mu.group(4))
+                    line = '%sdefer func() { %s.%s(); verifUnlock("%s", %s, "%s") }()' % (mu.group(1), mu.group(3), mu.group(4), site, _lockref(mu.group(3)), kind)
                 else:
-                    line = '%sverifUnlock(%s, "%s"); %s.%s()' % (mu.group(1), _lockref(mu.group(3)), kind, mu.group(3), mu.group(4))
+                    line = '%s%s.%s(); verifUnlock("%s", %s, "%s")' % (mu.group(1), mu.group(3), mu.group(4), site, _lockref(mu.group(3)), kind)
             elif mw:
                 n += 1
                 line = '%sverifYield("%s#%d"); %s' % (mw.group(1), func, n, mw.group(2))
